@@ -12,7 +12,7 @@ CHECKS = {
                 text="every token sequence (<=3, thorough <=4) over a 30-symbol value alphabet in 5 wrappings, every string <=3 over 56 symbols "
                      "spelled quoted, and every model document of the structure/value/adjacency/decoration sweeps in canonical and lenient "
                      "renderings is canonicalised by the real reader+emitter; metamorphic oracle: canonical text is strict-readable and a byte-exact "
-                     "fixed point; tool routes (octave_validate fed back, octave_write then normalize, CLI normalize twice) on the value sweep; plus the comment-placement sweep (every skeleton x every set of <=2 occupied comment places incl. header/footer), block targets with and without the section marker and 20 frontmatter shapes",
+                     "fixed point; tool routes (octave_validate fed back, octave_write then normalize, CLI normalize twice) on the value sweep; plus the comment-placement sweep (every skeleton x every set of <=2 occupied comment places incl. header/footer), block targets with and without the section marker and 20 frontmatter shapes; text that is canonical for the API must be left alone by `octave normalize` too; verbatim lines that end in blanks (zones, frontmatter, empty comments)",
                 note="finite alphabets and bounded document sizes (DESIGN.md §4/§7); no expectation about what the canonical text is",
                 tech="small-scope exhaustive enumeration of inputs (bounded model checking of emit∘parse as a fixed-point relation)"),
     "C02": dict(level="exploration", engine=E1,
@@ -25,18 +25,18 @@ CHECKS = {
                 text="for every model document the product of choices at every lenient site (alias per operator occurrence, :: spacing, indent "
                      "width, blank/whitespace-only lines, trailing spaces, list layout, optional/triple quotes, omitted END) is enumerated (full "
                      "product up to 6 sites, thorough 10; singles+pairs+all-on beyond); all canonicalise to identical bytes and an independent "
-                     "line-level recogniser accepts every canonical text as strict profile; the recogniser also enforces the list-item / closing-bracket indent of multi-line lists; trailing blanks on envelope, META and separator lines, comment places and block-target spellings are rewrite sites too",
+                     "line-level recogniser accepts every canonical text as strict profile; the recogniser also enforces the list-item / closing-bracket indent of multi-line lists; trailing blanks on envelope, META and separator lines, comment places and block-target spellings are rewrite sites too; further rewrite sites: optional quotes around a non-first operand, trailing blanks after comments, empty lines before the document, a percentage written bare",
                 note="only the lenient freedoms listed in the property; strict-profile recogniser written from the documentation",
                 tech="exhaustive enumeration of the product of rewrite sites per document; convergence + independent recogniser"),
     "C04": dict(level="exploration", engine=E1,
                 text="every string of length <=3 (thorough 4) over a 56-symbol alphabet with one representative per lexer/emitter class, in 11 API "
-                     "positions and 6 tool positions, is emitted by the real emitter and re-read by the real strict reader; identity oracle",
+                     "positions and 6 tool positions, is emitted by the real emitter and re-read by the real strict reader; identity oracle; the alphabet includes wrong-case spellings of the reserved words",
                 note="finite alphabet; NFC comparison as the property states; the random length-60 sweep is supplementary",
                 tech="small-scope exhaustive enumeration of values x positions against an identity reference model"),
     "C05": dict(level="exploration", engine=E1,
                 text="all zone contents of <=2 lines (thorough 3) over 28 line atoms x fence lengths x tags x 10 placements through 17 pipelines "
                      "(readers, emit twice, validate x3, write content/lenient/changes/normalize, seal, eject octave/json, CLI normalize); zone bytes "
-                     "compared at AST and at text-between-fences level, rest of the document against the content model; placements include NFC-unstable text before the zone and a document with YAML frontmatter; atoms include fence-shaped NFC-unstable lines and every non-LF line-boundary character",
+                     "compared at AST and at text-between-fences level, rest of the document against the content model; placements include NFC-unstable text before the zone and a document with YAML frontmatter; atoms include fence-shaped NFC-unstable lines and every non-LF line-boundary character; placements: a block validated by a generated schema with LANG[..], the Issue #259 fence form followed by a sibling (also nested), a document ending in a closing fence (END omitted); info tag with upper-case letters",
                 note="finite atom alphabet; tags without outer blanks; never generates a nested fence (documented error)",
                 tech="exhaustive enumeration of zone contents x placements x pipelines against the generator's model"),
     "C06": dict(level="model_checking", engine="E6 process matrix + virtual asyncio loop (vt/env/procmatrix.py, vt/env/aioloop.py)",
@@ -44,7 +44,7 @@ CHECKS = {
                      "real code and compared byte-for-byte (timestamps masked) with the reference run of the same call alone in a fresh "
                      "process: full product PYTHONHASHSEED x cwd (two directories with identical schemas, and /) x locale over 270 calls; every "
                      "ordered pair of a 40-call (thorough 80) alphabet in long-lived workers; every ready-handle order of 2 (thorough 3) "
-                     "concurrently scheduled tool tasks on a virtual event loop against the sequential results; histories in which the schema's text is edited between calls (call | edit | call | edit back | call vs fresh processes); two threads over six workload pairs under a preemption-bounded scheduler (sys.monitoring): p=1 at call/return granularity (thorough: line granularity, plus p=2 at call granularity)",
+                     "concurrently scheduled tool tasks on a virtual event loop against the sequential results; histories in which the schema's text is edited between calls (call | edit | call | edit back | call vs fresh processes); two threads over six workload pairs under a preemption-bounded scheduler (sys.monitoring): p=1 at call/return granularity (thorough: line granularity, plus p=2 at call granularity); a packaged schema name shadowed by a different file in cwd B; overwrites that lose several section markers with a common leading number",
                 note="timestamps masked by key name; OS-thread interleavings inside one interpreter are not enumerated (DESIGN.md §7)",
                 tech="explicit enumeration of configurations x ordered call pairs x event-loop schedules on the implementation, differential "
                      "against a fresh-process reference (stateless model checking)"),
@@ -58,46 +58,46 @@ CHECKS = {
     "C09": dict(level="exploration", engine=E1,
                 text="34 instance variants of a generated schema (valid; invalid in each single way) x every lenient rendering (site product up "
                      "to the bound, singles+all-on beyond, thorough all pairs) + canonical(x) + canonical(canonical(x)) x 4 profiles x 4 entry "
-                     "points; identical (status, {(code, field)}) for all spellings, canonical text unchanged with fix off, idempotent envelopes; one Validator OBJECT reused for every document of a worker (twice per document); schemas that validate the YAML frontmatter (packaged SKILL) over 11 frontmatter shapes",
+                     "points; identical (status, {(code, field)}) for all spellings, canonical text unchanged with fix off, idempotent envelopes; one Validator OBJECT reused for every document of a worker (twice per document); schemas that validate the YAML frontmatter (packaged SKILL) over 11 frontmatter shapes; ONE schema object shared by all documents of a worker with a block-target document in every history; CLI prints exactly the plain canonical text; PCT field with a text-sensitive constraint; a field routed to an undeclared target",
                 note="respellings are the documented lenient freedoms; the reference outcome is the canonical rendering's",
                 tech="exhaustive enumeration of respellings per (schema, instance); metamorphic equality of verdicts"),
     "C10": dict(level="exploration", engine=E1,
                 text="full product of tool arguments (content class x schema argument x profile x every flag/mode/format) for octave_validate, "
                      "octave_write, octave_eject, octave_compile_grammar and the CLI; invariants on every envelope: status present and one of the "
                      "documented values, VALIDATED only when a schema of that name exists (own directory scan) and no error-severity finding, "
-                     "UNVALIDATED otherwise, INVALID iff errors; schema life cycle: every event sequence of length <=4 (thorough 5) over {install v1, install v2, delete, go away, come back} against a (cwd, file) state model - after EVERY event validate and write must answer UNVALIDATED / VALIDATED / INVALID as the state says",
+                     "UNVALIDATED otherwise, INVALID iff errors; schema life cycle: every event sequence of length <=4 (thorough 5) over {install v1, install v2, delete, go away, come back} against a (cwd, file) state model - after EVERY event validate and write must answer UNVALIDATED / VALIDATED / INVALID as the state says; schema files that are found but are not well-formed OCTAVE (unloadable names); an unknown META field; the canonical text of every VALIDATED answer is re-validated by a plain call",
                 note="LENIENT/ULTRA profiles downgrade by design; W_STRUCT salvage wraps are readable content (DESIGN.md §6)",
                 tech="exhaustive enumeration of the argument product; envelope invariants"),
     "C11": dict(level="exploration", engine=E1,
                 text="2 generated schemas x every perturbation of every field value (all case variants of ENUM members, prefixes, numeric strings "
                      "in every notation, wrong kinds) x 8 placements single and repeated + missing/extra-field documents through repair(), "
                      "octave_validate fix on/off, octave_write lenient+schema and `octave validate --fix`; structural diff before/after "
-                     "reconciled with the repair log; ENUMs with 3- and 4-way case collisions; fix off (explicit and omitted) under every profile",
+                     "reconciled with the repair log; ENUMs with 3- and 4-way case collisions; fix off (explicit and omitted) under every profile; builtin META.STATUS repair through octave_write(lenient, schema=META) and validate(fix) over every perturbation of the builtin enum",
                 note="lossless text-to-number means Decimal equality; the property restricts the kind of change, not its location",
                 tech="exhaustive enumeration of value perturbations x placements; diff/log reconciliation oracle"),
     "C12": dict(level="exploration", engine=E1,
                 text="single-field schemas = 30 names x (every constraint atom + 24 REGEX patterns + 2-member chains), two-field schemas = all "
                      "ordered pairs of names, consecutive compilations in one process, through 7 grammar-returning routes; every grammar is read "
-                     "by an independent reader of llama.cpp grammar syntax (root defined, every reference defined, no rule twice, no empty alternative); REGEX pool includes several classes with literal glue and '#' inside literals/classes",
+                     "by an independent reader of llama.cpp grammar syntax (root defined, every reference defined, no rule twice, no empty alternative); REGEX pool includes several classes with literal glue and '#' inside literals/classes; raw (non-pattern) FIELDS entries, singly and in pairs, incl. values with line breaks and '::=' text; the compiler's own rule names are harvested from its output at run time and used as field names",
                 note="llama.cpp grammar syntax as implemented by its parser (vt/oracles/gbnf.py)",
                 tech="exhaustive enumeration of schema programs; independent GBNF recogniser as oracle"),
     "C13": dict(level="exploration", engine=E1,
                 text="for every decided chain (CONST/ENUM/BOOLEAN/NUMBER/DATE/ISO8601 alone or with REQ/OPT) the compiled field rule is "
                      "interpreted by an independent GBNF derivation enumerator and ALL derivations within the bound are read by the real reader and "
-                     "judged by the field's own chain; literals include integers above 2^53, booleans, zero spellings and astral / combining code points",
+                     "judged by the field's own chain; literals include integers above 2^53, booleans, zero spellings and astral / combining code points; percentages and leading-zero literals, chains holding both ENUM and CONST",
                 note="ws derived as empty; NUMBER up to k digits (adaptive budget), DATE/ISO8601 over a per-position digit sub-alphabet",
                 tech="bounded exhaustive enumeration of grammar derivations, replayed against the validator"),
     "C14": dict(level="exploration", engine=E1,
                 text="model documents (6 filter-key shapes x every pool value, duplicate keys, sections, zones, holographic, S(3,3)) x 4 modes x 4 "
                      "formats through octave_eject (one process, fixed order) and `octave eject`; leaf multisets extracted independently from "
-                     "each output are a sub-multiset of the source model's and lossy is true iff something was removed; documents with filter keys of one mode nested under the other mode's subtree and zones whose bytes a trim / NFC pass would change; Markdown's key set must equal the OCTAVE rendering's key set of the same projection",
+                     "each output are a sub-multiset of the source model's and lossy is true iff something was removed; documents with filter keys of one mode nested under the other mode's subtree and zones whose bytes a trim / NFC pass would change; Markdown's key set must equal the OCTAVE rendering's key set of the same projection; a number shown in the Markdown rendering must be a number the source has",
                 note="JSON/YAML cannot tell a block from an inline map; markdown compared on leaf paths only",
                 tech="exhaustive enumeration of documents x modes x formats; independent leaf extraction"),
     "C15": dict(level="exploration", engine=E1,
                 text="for every model document: seal->verify in memory / after text round trip / sealed twice / after every cosmetic respelling; "
                      "EVERY single-site content mutation (leaf replaced by same- and other-type value, key renamed, node deleted/duplicated/"
                      "moved/re-nested, META field, envelope name, frontmatter, each hash digit) must verify INVALID; unsealed -> NO_SEAL; same "
-                     "through `octave seal` / `octave validate --verify-seal --require-seal`; every single comment place (incl. footer comments); cosmetic respellings of the sealed FILE through the CLI too",
+                     "through `octave seal` / `octave validate --verify-seal --require-seal`; every single comment place (incl. footer comments); cosmetic respellings of the sealed FILE through the CLI too; leaf type flips inside lists / inline maps, nodes appended after the SEAL section, verbatim documents through `octave seal`",
                 note="comment edits are not generated as tampering (not among the sealed content kinds)",
                 tech="exhaustive enumeration of single-site mutations and respellings per document"),
     "C16": dict(level="fault_enumeration", engine="E5 libc interposer (vt/fsshim)",
@@ -105,7 +105,7 @@ CHECKS = {
                      "EVERY file-system call boundary of the fault-free run is taken as kill point, power-loss point (unsynced data lost, "
                      "un-fsynced rename may or may not persist) and injected failure for 5 errnos, plus second deviations (fault then fault/"
                      "kill) as a deviation tree; oracle from the supervising process: target is complete old or complete new bytes, errors "
-                     "leave bytes+mode unchanged and no temp sibling, success implies sha256(file)==canonical_hash; scenarios include files that are canonical apart from CRLF / bare-CR line ends; an external modification injected before every call boundary up to the install step (shim mode EDIT); and a second fault layer in-process: a transient OSError (EINTR, EIO, ENOSPC) raised once at the j-th call of every OS-facing Python function of the write path",
+                     "leave bytes+mode unchanged and no temp sibling, success implies sha256(file)==canonical_hash; scenarios include files that are canonical apart from CRLF / bare-CR line ends; an external modification injected before every call boundary up to the install step (shim mode EDIT); and a second fault layer in-process: a transient OSError (EINTR, EIO, ENOSPC) raised once at the j-th call of every OS-facing Python function of the write path; builtin META case-fold between emission and write; text that cannot be encoded as UTF-8",
                 note="the interposer sees every libc file call of the child; kernel-internal non-atomicity outside the model",
                 tech="exhaustive fault/crash-point enumeration (deviation-bounded, 2 deviations) on the implementation"),
     "C17": dict(level="model_checking", engine="E5 libc interposer stepper + E7 virtual asyncio loop",
@@ -113,7 +113,7 @@ CHECKS = {
                      "normalize, each also dry, 4 external modifications) x base_hash {none,current,stale,future} from every reachable "
                      "state, plus literal histories <=3 in one process; (b) two writer processes with the same base_hash stepped at every "
                      "visible libc operation on the target - ALL interleavings with state merging, at most one success, file = winner's bytes; "
-                     "(c) all ready-handle orders of 2 tool tasks; failed and dry calls leave the whole directory tree untouched; every non-dry content/changes event also through `octave write` (refused vs success)",
+                     "(c) all ready-handle orders of 2 tool tasks; failed and dry calls leave the whole directory tree untouched; every non-dry content/changes event also through `octave write` (refused vs success); an event writing canonical content that contains a carriage return; one mixed MCP-tool / file_ops writer pair in the quick tier",
                 note="base_hash on an absent file is UNSPECIFIED; writers share only the file system",
                 tech="explicit-state model checking: reference register model x implementation, all two-process schedules at libc call granularity"),
     "C18": dict(level="exploration", engine=E1,
@@ -127,21 +127,21 @@ CHECKS = {
                 text="ALL path strings of depth <=d over {sub, ., .., link_in, link_out, '', newdir} x 15 final names x absolute/relative x 9 "
                      "operations run in a child under the interposer, which records every path handed to open/mkdir/rename/unlink; all schema "
                      "names <=n over 16 characters; frozen@ references; source URIs; oracle: an independent string classifier says MUST refuse "
-                     "=> refused AND no create/replace/remove/open-for-write outside (or at) the refused path",
+                     "=> refused AND no create/replace/remove/open-for-write outside (or at) the refused path; path-shaped schema names (absolute and relative, upper-case components whose lower-cased spelling exists outside the schema directories); `octave write --changes` among the operations",
                 note="upper-case extensions, '.oct.md', over-long names are UNSPECIFIED: only containment is required there",
                 tech="exhaustive enumeration of path strings with system-call-level observation"),
     "C07": dict(level="exploration", engine=E1,
                 text="for every model document every combination of options at its receipt-bearing rewrite sites (full product up to 8 sites) is "
                      "rendered with exact positions, with and without all other lenient freedoms; multiset equality between injected rewrites and "
                      "receipts of parse_with_warnings, octave_validate.repairs, octave_write corrections (strict and lenient), plus the converse on "
-                     "canonical renderings and on every canonical text of the token space; pool strings include bare multi-word values with quoted chunks, frontmatter with non-LF line boundaries and block targets",
+                     "canonical renderings and on every canonical text of the token space; pool strings include bare multi-word values with quoted chunks, frontmatter with non-LF line boundaries and block targets; receipts also under validate(fix=True), other profiles and debug flags",
                 note="advisory receipts are ignored in both directions (DESIGN.md §5.7)",
                 tech="exhaustive enumeration of subsets of rewrite sites; bijection check between injected rewrites and receipts"),
     "C20": dict(level="exploration", engine=E1,
                 text="all token sequences <=4 (thorough 5) over a 32-symbol structural alphabet into tokenize/parse/parse_with_warnings/"
                      "parse_meta_only; sequences <=2 (thorough 3) and a pool of rich documents through 35 tool configurations; unicode category "
                      "representatives x 19 contexts; every 1-line delete/dup/swap/truncate of every packaged .oct.md; deterministic executed-line "
-                     "growth on 29 size-scaled families; bracket nesting around the documented cap; every string of <=3 (thorough 4) over 40 single characters, every character-granular prefix and suffix of the pool documents, special-case words (harvested from the sources at run time) x 13 templates x 12 values through readers and tools",
+                     "growth on 29 size-scaled families; bracket nesting around the documented cap; every string of <=3 (thorough 4) over 40 single characters, every character-granular prefix and suffix of the pool documents, special-case words (harvested from the sources at run time) x 13 templates x 12 values through readers and tools; unclosed-quote + escape-pair families (regex backtracking is invisible to line counts: the 60 CPU-second watchdog decides), deep brackets inside META and nested META through all four readers",
                 note="growth is decided on executed-line counts (sys.monitoring), not wall time; finite alphabets",
                 tech="exhaustive enumeration of token sequences and single-edit mutations; outcome-class oracle (Document | LexerError | ParserError)"),
 }
